@@ -10,11 +10,16 @@ EXTENDS Integers, Sequences, FiniteSets, TLC, Json
 CONSTANTS Names,        \* concrete spellings, e.g. {"a","A","b"}
           Fold,         \* [Names -> folded name]
           Ggufs, Systems, MaxOps, Versions,   \* Versions: [version -> set of layers] published by the registry
+          Templates,    \* template texts a create request may carry (overrides)
+          TemplGgufs,   \* GGUFs whose chat template ollama recognises: a create from them adds the autodetected template layer
+                        \* "AT" and its parameter layer "AP" (server/model.go detectChatTemplate)
           CreateContinuesAfterFromError   \* TRUE = pinned code (no return after a parseFromModel error)
 
 NoneM == [layers |-> {}, present |-> FALSE]
-Layer == Ggufs \cup Systems
+Layer == Ggufs \cup Systems \cup Templates \cup {"AT", "AP"}
 IsSys(l) == l \in Systems
+IsTempl(l) == l \in Templates \cup {"AT"}
+Auto(g) == IF g \in TemplGgufs THEN {"AT", "AP"} ELSE {}
 
 VARIABLES man, blobs, cfgs, ops, bad, hist     \* blobs: layer blobs; cfgs: config blobs (one per layer set)
 vars == <<man, blobs, cfgs, ops, bad, hist>>
@@ -37,12 +42,14 @@ Collateral(n, m2, b2, c2) ==   \* some other listed model changed or lost a blob
 
 Upload(g) == /\ g \in Ggufs /\ blobs' = blobs \cup {g} /\ UNCHANGED <<man, cfgs, bad>>
 
-DoCreate(n, baseLayers, sys) ==
+\* fresh: layers this request has just written as blobs (the autodetected template and its parameters)
+DoCreate(n, baseLayers, fresh, sys, tmpl) ==
   LET old == man[n]
-      removed == IF sys = "none" THEN {} ELSE {l \in baseLayers : IsSys(l)}
-      b1 == GC(blobs, man, removed)                          \* removeLayer -> Layer.Remove (manifest n still old)
-      layers == IF sys = "none" THEN baseLayers ELSE (baseLayers \ removed) \cup {sys}
-      b2 == b1 \cup (IF sys = "none" THEN {} ELSE {sys})
+      removed == (IF sys = "none" THEN {} ELSE {l \in baseLayers : IsSys(l)}) \cup (IF tmpl = "none" THEN {} ELSE {l \in baseLayers : IsTempl(l)})
+      b1 == GC(blobs \cup fresh, man, removed)              \* removeLayer -> Layer.Remove (manifest n still old)
+      added == (IF sys = "none" THEN {} ELSE {sys}) \cup (IF tmpl = "none" THEN {} ELSE {tmpl})
+      layers == (baseLayers \ removed) \cup added
+      b2 == b1 \cup added
       c2 == cfgs \cup {layers}
       m2 == [man EXCEPT ![n] = [layers |-> layers, present |-> TRUE]]
       b3 == IF old.present THEN GC(b2, m2, old.layers) ELSE b2
@@ -50,15 +57,15 @@ DoCreate(n, baseLayers, sys) ==
   IN /\ man' = m2 /\ blobs' = b3 /\ cfgs' = c3
      /\ bad' = bad \cup (IF Collateral(n, m2, b3, c3) THEN {"collateral"} ELSE {})
 
-CreateFiles(n0, g, sys) ==
+CreateFiles(n0, g, sys, tmpl) ==
   LET n == Canon(n0) IN
-  IF g \in blobs THEN DoCreate(n, {g}, sys) ELSE UNCHANGED <<man, blobs, cfgs, bad>>
+  IF g \in blobs THEN DoCreate(n, {g} \cup Auto(g), Auto(g), sys, tmpl) ELSE UNCHANGED <<man, blobs, cfgs, bad>>
 
-CreateFrom(n0, src, sys) ==          \* the FROM name is NOT canonicalised by the handler; "missing" cannot even be pulled
+CreateFrom(n0, src, sys, tmpl) ==          \* the FROM name is NOT canonicalised by the handler; "missing" cannot even be pulled
   LET n == Canon(n0) IN
   IF src \in Names /\ man[src].present /\ man[src].layers \subseteq blobs
-    THEN DoCreate(n, man[src].layers, sys)
-    ELSE IF CreateContinuesAfterFromError THEN DoCreate(n, {}, sys)     \* streaming: error sent, then continues
+    THEN DoCreate(n, man[src].layers, {}, sys, tmpl)
+    ELSE IF CreateContinuesAfterFromError THEN DoCreate(n, {}, {}, sys, tmpl)     \* streaming: error sent, then continues
          ELSE UNCHANGED <<man, blobs, cfgs, bad>>
 
 Copy(s0, d0) ==
@@ -93,11 +100,13 @@ Pull(n0, v) ==
      /\ bad' = bad \cup (IF Collateral(n, m2, b3, c3) THEN {"collateral"} ELSE {})
 
 H(A, rec) == A /\ hist' = Append(hist, rec)
-Op(o) == [op |-> o, n |-> "", m |-> "", g |-> "", s |-> "none", v |-> ""]
+Op(o) == [op |-> o, n |-> "", m |-> "", g |-> "", s |-> "none", v |-> "", tp |-> "none"]
 Next == /\ ops < MaxOps /\ ops' = ops + 1
         /\ \/ \E g \in Ggufs : H(Upload(g), [Op("upload") EXCEPT !.g = g])
-           \/ \E n \in Names, g \in Ggufs, s \in Systems \cup {"none"} : H(CreateFiles(n, g, s), [Op("createfiles") EXCEPT !.n = n, !.g = g, !.s = s])
-           \/ \E n, m \in Names \cup {"missing"}, s \in Systems \cup {"none"} : n \in Names /\ H(CreateFrom(n, m, s), [Op("createfrom") EXCEPT !.n = n, !.m = m, !.s = s])
+           \/ \E n \in Names, g \in Ggufs, s \in Systems \cup {"none"}, tp \in Templates \cup {"none"} :
+                 H(CreateFiles(n, g, s, tp), [Op("createfiles") EXCEPT !.n = n, !.g = g, !.s = s, !.tp = tp])
+           \/ \E n, m \in Names \cup {"missing"}, s \in Systems \cup {"none"}, tp \in Templates \cup {"none"} :
+                 n \in Names /\ H(CreateFrom(n, m, s, tp), [Op("createfrom") EXCEPT !.n = n, !.m = m, !.s = s, !.tp = tp])
            \/ \E a, b \in Names : H(Copy(a, b), [Op("copy") EXCEPT !.n = b, !.m = a])
            \/ \E n \in Names : H(Delete(n), [Op("delete") EXCEPT !.n = n])
            \/ \E n \in Names, v \in DOMAIN Versions : H(Pull(n, v), [Op("pull") EXCEPT !.n = n, !.v = v])
